@@ -46,6 +46,8 @@ CATALOGUE = {
    "    for mapping in mappings.iter().rev() {\n      if is_supported(", "    for mapping in mappings.iter() {\n      if is_supported(", ["C03"], ["C01", "C19", "C06"]),
  "M17-shared-modifier-collected-twice": (KT,
    "if state.mapped_output_keys.contains(mod_key) && !keys_to_release.contains(mod_key) {", "if state.mapped_output_keys.contains(mod_key) {", ["C19"], ["C01", "C06"]),
+ "M18-rightmeta-not-a-standard-modifier": (KT,
+   "    RIGHTMETA => false,\n", "", ["C05"], ["C01", "C19"]),
  "L05-rearm-from-max-wakeup-now": (RL,
    "                  next_wakeup: next_wakeup + Duration::from_millis(interval_ms as u64),",
    "                  next_wakeup: std::cmp::max(next_wakeup, Instant::now()) + Duration::from_millis(interval_ms as u64),", ["C11"], ["C10", "C12", "C20"]),
